@@ -14,12 +14,13 @@ from checks import rcommon
 
 LEVEL = "model_checking"
 
-CFG = 'CONSTANTS\n Sizes = %s\nINIT Init\nNEXT Next\nINVARIANT Emit\nCHECK_DEADLOCK FALSE\n'
+CFG = 'CONSTANTS\n Sizes = %s\n PerShape = %d\nINIT Init\nNEXT Next\nINVARIANT Emit\nCHECK_DEADLOCK FALSE\n'
 
 
-def gen(chk, sizes, simulate=None):
-    r = common.run_tlc("MC_SchemaGen", constants_text=CFG % ("{%s}" % ", ".join(map(str, sizes))), simulate=simulate,
-                       depth=4 if simulate else None, workers=8, timeout=2400, heap="12g")
+def gen(chk, sizes, per_shape=0):
+    simulate = None
+    r = common.run_tlc("MC_SchemaGen", constants_text=CFG % ("{%s}" % ", ".join(map(str, sizes)), per_shape),
+                       workers=8, timeout=2400, heap="12g", tseed=common.seed())
     if "spec self-check failed" in r.out:
         raise common.InfraError("Schema.tla vs ParquetFile.SchemaLeaves disagree\n" + r.out[-1500:])
     if r.rc != 0 and not (simulate and r.cases):
@@ -133,7 +134,7 @@ def run(chk, tier, replay):
     binary = common.build_harness("h_file")
     cases = gen(chk, [1, 2, 3, 4] if tier == "quick" else [1, 2, 3, 4, 5])
     if tier != "quick":
-        cases += gen(chk, [6, 7], simulate=400)
+        cases += gen(chk, [6, 7], per_shape=16)
     with rcommon.Fixtures(cases, tag="sch") as fx:
         lines = []
         for i, c in enumerate(cases):
